@@ -6,7 +6,7 @@
 //   * round trip: parse(serialize(v)) into a fresh object == v, where a smart pointer to a value with an
 //     empty encoding reads back as null (`norm`)
 //   * whenever parsing arbitrary bytes reports success, the result serializes and parses back to itself
-//   * parsing terminates (watchdog: allocation budget + alarm in a forked child) and is memory-safe
+//   * parsing terminates (the interpreter runs in a supervised worker process: allocation budget, 30 s answer timeout; a crash is a result) and is memory-safe
 //     (ASan + UBSan; the input lives in an exactly-sized heap block)
 // A broken oracle appends " !ORACLE(<kind> …)" to the output line.
 //
@@ -22,6 +22,7 @@
 //     | s<c> (CodedInputStream over ArrayInputStream with block size c) | s<c>L<n> (… + PushLimit(n))
 #include <babylon/serialization.h>
 
+#include <poll.h>
 #include <signal.h>
 #include <sys/wait.h>
 #include <unistd.h>
@@ -602,41 +603,14 @@ static const Entry* find(const std::string& id) {
   return nullptr;
 }
 
-// run `fn` in a forked child guarded by an alarm and an allocation budget; a crash is a result
+// hostile operations run under an allocation budget (a parse loop that never ends allocates for ever); the whole
+// interpreter runs in a worker process supervised by main(), so a crash / hang / exhausted budget is a result line
 template <class F> static std::string guarded(F&& fn) {
-  fflush(stdout);
-  int fds[2];
-  if (pipe(fds) != 0) return "infra-error pipe";
-  pid_t pid = fork();
-  if (pid < 0) return "infra-error fork";
-  if (pid == 0) {
-    close(fds[0]);
-    dup2(fds[1], 1);
-    alarm(20);
-    g_allocated = 0;
-    g_alloc_budget = size_t(256) << 20;
-    std::string r = fn();
-    g_alloc_budget = 0;
-    r += "\n";
-    (void)!write(1, r.data(), r.size());
-    _exit(0);
-  }
-  close(fds[1]);
-  std::string out;
-  char buf[4096];
-  ssize_t n;
-  while ((n = read(fds[0], buf, sizeof buf)) > 0) out.append(buf, size_t(n));
-  close(fds[0]);
-  int status = 0;
-  waitpid(pid, &status, 0);
-  while (!out.empty() && out.back() == '\n') out.pop_back();
-  if (WIFSIGNALED(status)) {
-    if (WTERMSIG(status) == SIGALRM) return "noret !ORACLE(nonterminating alarm)";
-    return "crash !ORACLE(crash signal=" + std::to_string(WTERMSIG(status)) + ")";
-  }
-  if (WIFEXITED(status) && WEXITSTATUS(status) != 0) return "crash !ORACLE(crash exit=" + std::to_string(WEXITSTATUS(status)) + ")";
-  if (out.empty()) return "crash !ORACLE(crash no-output)";
-  return out;
+  g_allocated = 0;
+  g_alloc_budget = size_t(256) << 20;
+  std::string r = fn();
+  g_alloc_budget = 0;
+  return r;
 }
 
 // `encu`: unordered containers iterate in an unspecified order, so the bytes are printed sorted (the real bytes are
@@ -693,15 +667,95 @@ static std::string run_line(const std::vector<std::string>& w) {
   }
 }
 
-int main() {
-  std::string line;
-  while (std::getline(std::cin, line)) {
-    std::istringstream is(line);
+static void worker_loop(int in_fd, int out_fd) {
+  FILE* in = fdopen(in_fd, "r");
+  char* buf = nullptr;
+  size_t cap = 0;
+  ssize_t n;
+  while ((n = getline(&buf, &cap, in)) >= 0) {
+    std::istringstream is(std::string(buf, size_t(n)));
     std::vector<std::string> w;
     std::string t;
     while (is >> t) w.push_back(t);
-    std::string out = run_line(w);
+    std::string out = run_line(w) + "\n";
+    size_t off = 0;
+    while (off < out.size()) {
+      ssize_t k = write(out_fd, out.data() + off, out.size() - off);
+      if (k <= 0) _exit(3);
+      off += size_t(k);
+    }
+  }
+  _exit(0);
+}
+
+struct Worker {
+  pid_t pid = -1;
+  int to = -1, from = -1;
+  void start() {
+    int a[2], b[2];
+    if (pipe(a) != 0 || pipe(b) != 0) { perror("pipe"); exit(2); }
+    fflush(stdout);
+    pid = fork();
+    if (pid < 0) { perror("fork"); exit(2); }
+    if (pid == 0) {
+      close(a[1]); close(b[0]);
+      dup2(b[1], 1);   // the budget handler writes its verdict to fd 1
+      worker_loop(a[0], b[1]);
+    }
+    close(a[0]); close(b[1]);
+    to = a[1]; from = b[0];
+  }
+  // -> "" when the worker died before answering
+  std::string ask(const std::string& line, bool& timed_out) {
+    timed_out = false;
+    std::string msg = line + "\n";
+    if (write(to, msg.data(), msg.size()) != ssize_t(msg.size())) return "";
+    std::string out;
+    for (;;) {
+      struct pollfd pfd { from, POLLIN, 0 };
+      int r = poll(&pfd, 1, 30000);
+      if (r == 0) { timed_out = true; return ""; }
+      if (r < 0) return "";
+      char buf[65536];
+      ssize_t n = read(from, buf, sizeof buf);
+      if (n <= 0) return "";
+      out.append(buf, size_t(n));
+      if (!out.empty() && out.back() == '\n') { out.pop_back(); return out; }
+    }
+  }
+  std::string stop() {
+    std::string how;
+    if (pid > 0) {
+      int status = 0;
+      if (waitpid(pid, &status, WNOHANG) == 0) { kill(pid, SIGKILL); waitpid(pid, &status, 0); how = "killed"; }
+      else if (WIFSIGNALED(status)) how = "signal=" + std::to_string(WTERMSIG(status));
+      else how = "exit=" + std::to_string(WEXITSTATUS(status));
+    }
+    close(to); close(from);
+    pid = -1;
+    return how;
+  }
+};
+
+int main() {
+  signal(SIGPIPE, SIG_IGN);
+  Worker w;
+  w.start();
+  std::string line;
+  while (std::getline(std::cin, line)) {
+    bool timed_out = false;
+    std::string out = w.ask(line, timed_out);
+    if (out.empty()) {
+      usleep(timed_out ? 0 : 200000);   // let a dying worker finish its sanitizer report
+      std::string how = w.stop();
+      out = timed_out ? "noret !ORACLE(nonterminating no answer in 30 s)" : "crash !ORACLE(crash " + how + ")";
+      w.start();
+    } else if (out.find("!ORACLE(nonterminating") != std::string::npos) {
+      w.stop();   // the budget handler has left the worker
+      w.start();
+    }
     std::cout << out << "\n" << std::flush;
   }
+  w.stop();
   return 0;
 }
